@@ -632,6 +632,72 @@ print(json.dumps(out))
 '''
 
 
+COLLECTOR_SCRIPT = r'''
+import sys, json
+sys.path[0:0] = %r
+import numpy as np
+from mpi4py import MPI
+from pygyro.model.layout import getLayoutHandler
+from pygyro.model.grid import Grid
+from pygyro.diagnostics.diagnostic_collector import DiagnosticCollector
+
+class Rec:
+    # the communicator of the collector, recording WHICH row of the table goes into the k-th reduction
+    def __init__(self, c):
+        self._c, self.log = c, []
+    def __getattr__(self, n):
+        return getattr(self._c, n)
+    def Reduce(self, sendbuf, recvbuf, op=None, root=0):
+        self.log.append([float(np.ravel(np.asarray(sendbuf))[0]), repr(op), int(root)])
+        return self._c.Reduce(sendbuf, recvbuf, op=op, root=root)
+
+def body():
+    comm = MPI.COMM_WORLD
+    npts = [4, 5, 4, 6]
+    eta = [np.linspace(0.5, 2, npts[0]), np.linspace(0, 2 * np.pi, npts[1], endpoint=False), np.linspace(0, 1, npts[2], endpoint=False), np.linspace(-2, 2, npts[3])]
+    h = getLayoutHandler(comm, {'flux_surface': [0, 3, 1, 2], 'v_parallel': [0, 2, 1, 3], 'poloidal': [3, 2, 1, 0]}, [1, 1], eta)
+    f = Grid(eta, [None] * 4, h, 'v_parallel', comm)
+    h3 = getLayoutHandler(comm, {'v_parallel_2d': [0, 2, 1], 'mode_solve': [1, 2, 0]}, [1, 1], eta[:3])
+    phi = Grid(eta[:3], [None] * 3, h3, 'v_parallel_2d', comm, dtype=np.complex128)
+    rec = Rec(comm)
+    dc = DiagnosticCollector(rec, 2, 1, f, phi)
+    for k in range(dc.diagnostics.shape[0]):
+        dc.diagnostics[k, :] = 100.0 + k          # row k is recognisable by its values
+    dc.reduce()
+    return rec.log
+print(json.dumps(MPI.run(1, body).values()[0]))
+'''
+
+
+def part_collector_hash_seeds(chk):
+    # every real rank is an interpreter of its own with its own string-hash seed: the k-th reduction of DiagnosticCollector.reduce must
+    # carry the same quantity on every rank, i.e. the sequence (row of the table, operation, root) may not depend on the seed
+    seeds = list(range(chk.n(6, 24)))
+    with tempfile.TemporaryDirectory(prefix='pgc06h') as d:
+        script = os.path.join(d, 'collector.py')
+        open(script, 'w').write(COLLECTOR_SCRIPT % ([str(common.SIMMPI), str(common.REPO)],))
+        procs = []
+        for hs in seeds:
+            env = dict(os.environ, PYTHONHASHSEED=str(hs), PYTHONDONTWRITEBYTECODE='1')
+            procs.append((hs, subprocess.Popen([sys.executable, script], stdout=subprocess.PIPE, stderr=subprocess.PIPE, env=env, text=True)))
+        logs = {}
+        for hs, pr in procs:
+            o, e = pr.communicate()
+            if pr.returncode != 0:
+                chk.fail('C06:collector-crash', 'DiagnosticCollector on one process raised: ' + e[-300:], {'PYTHONHASHSEED': hs})
+                return
+            logs[hs] = json.loads(o.strip().splitlines()[-1])
+    ref = logs[seeds[0]]
+    for hs in seeds[1:]:
+        if logs[hs] != ref:
+            chk.fail('C06:reduction-order-depends-on-hash-seed', 'the sequence of reductions of DiagnosticCollector.reduce (which row of the table, which '
+                     'operation) differs between interpreters with PYTHONHASHSEED=%d and %d: ranks would add up different quantities' % (seeds[0], hs),
+                     {'what': 'DiagnosticCollector.reduce'}, ref, logs[hs])
+            break
+    chk.case(('collector-hash-seeds', len(seeds)), nontrivial=True)
+    chk.count('collector reductions under different hash seeds', len(seeds))
+
+
 def rand_graph(rng):
     n = rng.randint(2, 7)
     alphabet = 'abcdefghijklmnopqrstuvwxyz_0123456789'
@@ -745,6 +811,7 @@ def run(chk):
         drv.close()
     part_grid_reductions(chk)
     part_collector_empty_blocks(chk)
+    part_collector_hash_seeds(chk)
     part_grid_layout_changes(chk)
     part_swapper_plot_rank(chk)
     drv2 = common.LeanDriver('C06.lean')
